@@ -20,6 +20,8 @@ RepIdx(dump, x) == CHOOSE j \in 1..Len(dump.reps) : dump.reps[j] = x
 (* ---- structure (C14; also evaluated on builder and minimize results) ---- *)
 InRanges(rs, x) == \E a \in 1..Len(rs) : rs[a][1] <= x /\ x <= rs[a][2]
 ClassIdx(rs, x) == IF InRanges(rs, x) THEN CHOOSE a \in 1..Len(rs) : rs[a][1] <= x /\ x <= rs[a][2] ELSE 0
+RECURSIVE RunW(_, _, _, _)
+RunW(dump, q, w, i) == IF i > Len(w) THEN q ELSE RunW(dump, dump.delta[q][w[i]], w, i + 1)
 StructureObs(dump, s) ==
   LET n   == NStates(dump)
       R   == 1..Len(dump.reps)
@@ -28,6 +30,8 @@ StructureObs(dump, s) ==
   IN
   {<<"counters", s.num_states = n /\ s.init = dump.init
                  /\ s.num_final = Cardinality({q \in 1..n : dump.final[q]})>>,
+   \* accepts(w) on whole words (w = indices of representatives) agrees with stepping through next
+   <<"accepts_agrees_with_next", \A k \in 1..Len(s.acc) : s.acc[k].r = dump.final[RunW(dump, dump.init, s.acc[k].w, 1)]>>,
    <<"final_states", s.final_states = SetToSortSeq({q \in 1..n : dump.final[q]}, LAMBDA x, y : x < y)>>,
    \* combined_char_partition groups only characters with identical successors in every state
    <<"combined_partition_sound", \A j, k \in R : cls(j) = cls(k) => \A q \in 1..n : dump.delta[q][j] = dump.delta[q][k]>>,
